@@ -15,6 +15,8 @@ import (
 // C06 — scalar arithmetic is exact arithmetic modulo the group order.
 
 type c06Case struct {
+	// Conc != 0: a concurrent batch (8 goroutines on objects they own) derived from this seed; other fields unused.
+	Conc uint64 `json:"concurrent_seed,omitempty"`
 	Op    string `json:"op"` // add sub mul square invert pow setuint64 zero one minusone set copy
 	S     string `json:"s"`
 	T     string `json:"t,omitempty"` // hex, or "nil"
@@ -43,7 +45,7 @@ func init() {
 			"limb-structured 4-tuples, receiver aliased with the argument, nil arguments, PRNG cases. Oracle: math/big mod n (ModInverse, Exp); the stored limbs of the result must be < n and the argument's stored limbs bit-identical afterwards. " +
 			"" +
 			"History: (decoy) the same operation first runs on another object of equal value whose result is then changed in place; (chain) 12-step sequences of operations on one receiver, judged after every step, with arguments drawn from a small pool so that values and objects recur. " +
-			"non-trivial = at least one operand not in {0,1}; distinct by the whole case.",
+			"non-trivial = at least one operand not in {0,1}; distinct by the whole case. Plus concurrent batches: 8 goroutines run the operations simultaneously on objects they own, each result judged against the oracle.",
 		NewCase:  func() any { return &c06Case{} },
 		Generate: c06Generate,
 		Run:      c06Run,
@@ -57,6 +59,8 @@ func init() {
 }
 
 func c06Generate(c *mon.Ctx) {
+	concBatches(c, c.N(6, 300), func(seed uint64) any { return &c06Case{Conc: seed} })
+
 	n := oracle.N
 	st := gen.Structured(n)
 	hx := func(v *big.Int) string { return fmt.Sprintf("%x", v) }
@@ -313,6 +317,11 @@ func c06RunChain(c *mon.Ctx, cs *c06Case) {
 
 func c06Run(c *mon.Ctx, csAny any) {
 	cs := csAny.(*c06Case)
+
+	if cs.Conc != 0 {
+		c06RunConc(c, cs.Conc)
+		return
+	}
 	n := oracle.N
 
 	if cs.Op == "chain" {
